@@ -8,6 +8,13 @@
                          spelling).  Props/C10.v executes the skeleton with
                          the test's value `xorb negated running`.
 
+  fse_raise_sites        for every `raise FileSearchException(...)` in
+                         task.py / search.py the kind of each argument:
+                         "str" (text built in place), "exc" (a caught
+                         exception object), "other".  Whatever is stored in
+                         the exception is pickled when a worker hands its
+                         failure back.
+
 Only the FIRST `if` of the body (docstrings / log calls skipped) is looked
 at and its test must be exactly the flag or its negation; anything else
 fails closed.
@@ -77,4 +84,74 @@ def generate(repo):
         info['tm_stop_test'] = ast.unparse(ifs[0].test)
     except (Bad, OSError, SyntaxError) as exc:
         failed.append(('tm_stop_test_negated', f"{type(exc).__name__}: {exc}"))
+    # ---- what crosses the process boundary inside a FileSearchException:
+    # the kinds of the arguments at every `raise FileSearchException(...)`
+    try:
+        sites = []
+        for rel in ('task.py', 'search.py'):
+            with open(os.path.join(repo, 'searchkit', rel),
+                      encoding='utf-8') as f:
+                t = ast.parse(f.read())
+            for fn in [n for n in ast.walk(t)
+                       if isinstance(n, ast.FunctionDef)]:
+                for r in [n for n in ast.walk(fn)
+                          if isinstance(n, ast.Raise)]:
+                    e = r.exc
+                    if not (isinstance(e, ast.Call) and
+                            ast.unparse(e.func) == 'FileSearchException'):
+                        continue
+                    kinds = [_kind(a, fn, r) for a in e.args] + \
+                            [_kind(k.value, fn, r) for k in e.keywords]
+                    sites.append((f"{rel}:{fn.name}", kinds))
+        if not sites:
+            raise Bad("no `raise FileSearchException(...)` found")
+        body = "; ".join(
+            '("%s", [%s])' % (n, "; ".join('"%s"' % k for k in ks))
+            for n, ks in sites)
+        text.append("From Coq Require Import String List.\n"
+                    "Import ListNotations.\nLocal Open Scope string_scope.\n"
+                    "(* argument kinds at every raise of "
+                    "FileSearchException: \"str\" = text built in place, "
+                    "\"exc\" = a caught exception object, \"other\" *)\n"
+                    "Definition fse_raise_sites : list (string * list "
+                    f"string) :=\n  [{body}].\n")
+        info['fse_raise_sites'] = sites
+    except (Bad, OSError, SyntaxError) as exc:
+        failed.append(('fse_raise_sites', f"{type(exc).__name__}: {exc}"))
     return "\n".join(text), info, failed
+
+
+def _is_text(node, fn, depth=0):
+    """ an expression that can only be a str: literals, f-strings, their
+    concatenation / %-formatting, or a local assigned once from such """
+    if isinstance(node, ast.Constant):
+        return isinstance(node.value, str)
+    if isinstance(node, ast.JoinedStr):
+        return True
+    if isinstance(node, ast.BinOp) and isinstance(node.op, (ast.Add,
+                                                              ast.Mod)):
+        return _is_text(node.left, fn, depth)
+    if isinstance(node, ast.Call) and ast.unparse(node.func) in ('str',
+                                                                   'repr'):
+        return True
+    if isinstance(node, ast.Call) and isinstance(node.func, ast.Attribute) \
+            and node.func.attr == 'format':
+        return _is_text(node.func.value, fn, depth)
+    if isinstance(node, ast.Name) and depth < 3:
+        asg = [a for a in ast.walk(fn) if isinstance(a, ast.Assign)
+               and any(isinstance(t, ast.Name) and t.id == node.id
+                       for t in a.targets)]
+        return bool(asg) and all(_is_text(a.value, fn, depth + 1)
+                                 for a in asg)
+    return False
+
+
+def _kind(node, fn, site):
+    if _is_text(node, fn):
+        return 'str'
+    if isinstance(node, ast.Name):
+        for h in [n for n in ast.walk(fn)
+                  if isinstance(n, ast.ExceptHandler)]:
+            if h.name == node.id and any(x is site for x in ast.walk(h)):
+                return 'exc'
+    return 'other'
